@@ -51,6 +51,29 @@ func registerIntrinsics(e *Exec) {
 		st.counts[key] = 1
 		return e.callValue(st, args[1], nil, e.curDepth+1)
 	}
+	// sync.Pool: a LIFO of the values put back (Get calls New when it is empty)
+	in["(*sync.Pool).Put"] = func(e *Exec, st *State, fn *ssa.Function, args []Value) []Outcome {
+		id := e.poolStore(args[0].(Ptr))
+		q, _ := st.heap[id].(ArrayV)
+		st.heap[id] = ArrayV{append(append([]Value(nil), q.E...), args[1])}
+		return ret(st)
+	}
+	in["(*sync.Pool).Get"] = func(e *Exec, st *State, fn *ssa.Function, args []Value) []Outcome {
+		p := args[0].(Ptr)
+		id := e.poolStore(p)
+		q, _ := st.heap[id].(ArrayV)
+		if n := len(q.E); n > 0 {
+			st.heap[id] = ArrayV{append([]Value(nil), q.E[:n-1]...)}
+			return ret(st, q.E[n-1])
+		}
+		pool := e.load(st, p).(StructV)
+		for _, f := range pool.F {
+			if fv, ok := f.(FuncV); ok && !fv.Nil && fv.Fn != nil {
+				return e.callValue(st, fv, nil, e.curDepth+1)
+			}
+		}
+		return ret(st, IfaceV{})
+	}
 	in["internal/abi.NoEscape"] = func(e *Exec, st *State, fn *ssa.Function, args []Value) []Outcome {
 		return ret(st, args[0])
 	}
@@ -822,4 +845,18 @@ func (e *Exec) drainReader(st *State, r IfaceV, iter int, total *Term, sink func
 		}
 	}
 	return outs
+}
+
+// poolStore returns the heap slot that holds the contents of the sync.Pool at p.
+func (e *Exec) poolStore(p Ptr) int {
+	if e.pools == nil {
+		e.pools = map[int]int{}
+	}
+	id, ok := e.pools[p.Obj]
+	if !ok {
+		e.nextObj++
+		id = e.nextObj
+		e.pools[p.Obj] = id
+	}
+	return id
 }
